@@ -184,6 +184,18 @@ Theorem C06_fcqueue_linearizable_partial :
 Proof. exact FcContainers.fcqueue_linearizable_partA. Qed.
 Print Assumptions C06_fcqueue_linearizable_partial.
 
+(** The unconditional form (FcKernelShape.fc_never_lost: on the current kernel, chk = true, a request is never
+    released unanswered when every request is a batch_combine or the combine pass count is at least 1):
+    cds::container::FCQueue, elimination on or off, is linearizable to the FIFO queue for every schedule. *)
+Theorem C06_fcqueue_linearizable :
+  forall fuel mask npass ths c,
+    FcKernelProofs.ops_ok FcBatch.q_okop ths ->
+    FcContainers.passes_ok npass ths ->
+    Conc.reach (FcContainers.q_init_cfg true fuel mask npass ths) c ->
+    linearizable Fifo (FcContainers.fc_history Fifo FcBatch.res_dec FcBatch.q_dec (Conc.trace c)).
+Proof. exact FcContainers.fcqueue_linearizable. Qed.
+Print Assumptions C06_fcqueue_linearizable.
+
 (** cds::container::BasketQueue (over intrusive::BasketQueue: enqueue with the basket-insertion branch and
     try_again, do_dequeue with the hop loop and the logical-delete marks, free_chain), HP or DHP, item
     counter on or off.  PARTIAL: proved for every schedule are the structure of the chain and "no loss, no
